@@ -228,7 +228,7 @@ std::vector<K> gen_float_keys(Rng &r, size_t eps, size_t maxn, std::string &fami
     size_t n = force_n ? force_n : pick_n(r, maxn);
     std::vector<K> v;
     v.reserve(n);
-    int fam = int(r.below(9));
+    int fam = int(r.below(sizeof(K) == 8 ? 10 : 9));
     auto normal = [&]() {
         double a = r.unit(), b = r.unit();
         return std::sqrt(-2 * std::log(a + 1e-300)) * std::cos(6.283185307179586 * b);
@@ -271,6 +271,14 @@ std::vector<K> gen_float_keys(Rng &r, size_t eps, size_t maxn, std::string &fami
         case 7: { // mixed sign, quarter-integers
             family = "mixed_sign";
             for (size_t i = 0; i < n; ++i) v.push_back(K((double(r.below(4000)) - 2000.0) / 4));
+            break;
+        }
+        case 9: { // (double keys) gaps of 10^20 .. 10^37: bottom-level slopes down to 10^-37 and upper-level slopes, which are
+            // smaller by the fan-out of each level, in the subnormal range of a float slope (1.4e-45 .. 1.2e-38), where the
+            // library still routes within its window
+            family = "wide_gaps";
+            double g = std::pow(10.0, 20 + 17 * r.unit()), cur = r.chance(1, 2) ? 0 : -g * double(n) / 2;
+            for (size_t i = 0; i < n; ++i) { v.push_back(K(cur)); cur += g * (0.25 + r.unit()); }
             break;
         }
         default: { // staircase in floats
